@@ -39,6 +39,93 @@ def _directive(e: ast.AST, date: str) -> T.Optional[str]:
     return None
 
 
+def _expansion_in(prog, cfgs, fn, var: T.Optional[str]) -> T.Tuple[bool, str]:
+    """Does `fn` expand a two-digit year held in `var` (any local if None) by 2000, exactly for values below 100/1000?
+    Recognised idioms: `if v is not None and v < 1000: v += 2000` (decided on path conditions) and
+    `v + 2000 if v < 1000 else v`."""
+    def small(test: ast.AST, v: str) -> bool:
+        cs = shapes.compare_shape(test)
+        if not cs:
+            return False
+        op, a, b = cs
+        if op == ">":
+            op, a, b = "<", b, a
+        return op == "<" and unparse(a) == v and isinstance(b, ast.Constant) and b.value in (100, 1000)
+    def plus2000(e: ast.AST, v: str) -> bool:
+        if not (isinstance(e, ast.BinOp) and isinstance(e.op, ast.Add)):
+            return False
+        sides = [e.left, e.right]
+        return any(unparse(x) == v for x in sides) and any(isinstance(x, ast.Constant) and x.value == 2000 for x in sides)
+    for n in ast.walk(fn.node):
+        if isinstance(n, ast.IfExp):
+            for v in ([var] if var else sorted({x.id for x in ast.walk(n) if isinstance(x, ast.Name)})):
+                if small(n.test, v) and plus2000(n.body, v) and unparse(n.orelse) == v:
+                    return True, f"`{unparse(n)}`"
+                if isinstance(n.test, ast.UnaryOp) and isinstance(n.test.op, ast.Not) and small(n.test.operand, v) and plus2000(n.orelse, v) and unparse(n.body) == v:
+                    return True, f"`{unparse(n)}`"
+    cfg = cfgs.get(fn.fq)
+    pc = None
+    live = cfg.reachable()
+    for n in cfg.nodes:
+        if n.kind != "stmt" or n.id not in live:
+            continue
+        v = None
+        if isinstance(n.ast, ast.AugAssign) and isinstance(n.ast.op, ast.Add) and isinstance(n.ast.value, ast.Constant) and n.ast.value.value == 2000:
+            v = unparse(n.ast.target)
+        elif isinstance(n.ast, ast.Assign) and len(n.ast.targets) == 1 and plus2000(n.ast.value, unparse(n.ast.targets[0])):
+            v = unparse(n.ast.targets[0])
+        if v is None or (var and v != var):
+            continue
+        pc = pc or PathCond(cfg)
+        r = pc.reach(n.id).drop_unused()
+        lt = [a for a in r.atoms if a.replace(" ", "") in (f"{v}<1000", f"{v}<100")]
+        if len(lt) != 1:
+            continue
+        want = BF.var(lt[0])
+        keep = [lt[0]]
+        if f"{v} is None" in r.atoms:
+            want = want & ~BF.var(f"{v} is None")
+            keep.append(f"{v} is None")
+        if r.project(keep).equiv(want):
+            return True, f"`{unparse(n.ast)}` under `{lt[0]}`"
+    return False, ""
+
+
+def two_digit_year_rule(ctx, rule: str) -> None:
+    """Both year fields are expanded to four digits when read (cal_info always yields four digits; the future guard
+    and the round trip compare the two)."""
+    from sa import formats as _formats
+    from checks.c02 import part_tables as _pt
+    prog, cfgs = ctx.prog, ctx.cfgs
+    pf = prog.function("v2version.parse_field_values_to_cinfo")
+    ctx.visit(pf.fq)
+    _pats, _fields, _fmts = _pt(ctx)
+    short_fields = sorted({_fields[p] for p in _fields if _formats.describe_formatter(_fmts[p]).last2})
+    ctx.floor(rule, "fields with two-digit renderings", len(short_fields), 2)
+    for fld in short_fields:
+        ok, how = _expansion_in(prog, cfgs, pf, fld)
+        if not ok:
+            # through a private helper: the field's defining expression calls it on the captured text
+            for _st, tgt, val in shapes.iter_assigns(pf.node):
+                if unparse(tgt) != fld:
+                    continue
+                for c in ast.walk(val):
+                    if isinstance(c, ast.Call):
+                        t = prog.resolve_call(pf, c)
+                        if t.kind == "func" and t.fn is not None and t.fn.module is pf.module and any(repr(fld) in unparse(a) for a in list(c.args) + [k.value for k in c.keywords]):
+                            ok, how = _expansion_in(prog, cfgs, t.fn, None)
+                            if ok:
+                                ctx.visit(t.fn.fq)
+                                how = f"{t.fn.name}: {how}"
+                                break
+                if ok:
+                    break
+        ctx.check(rule, ok, f"parser: two-digit '{fld}' is expanded by 2000 (as cal_info yields four-digit years)  [{how}]",
+                  f"v2version.parse_field_values_to_cinfo: two-digit '{fld}' is not expanded to a four-digit year (the future guard compares 22 with 2021)",
+                  "no `+ 2000` under `< 1000` found for the field, directly or through a helper called on its captured text", loc=pf.loc(),
+                  witness={"version": "v22.05.1001", "pattern": "vGG.0V.BUILD", "date": "2021-06-01"} if fld == "year_g" else None)
+
+
 def run(ctx) -> None:
     prog, cfgs = ctx.prog, ctx.cfgs
     ctx.rule("R1", "guard lists == parts of the year/week fields; returns False iff (Y with V) or (G with W/U)")
@@ -167,32 +254,7 @@ def run(ctx) -> None:
         ctx.check("R3", a == d and b == d, f"field {f}: cal_info and the parser both use %{d}",
                   f"v2version: calendar field '{f}' is bound to different sources in cal_info ({a}) and the parser ({b}); expected %{d}",
                   f"cal_info: {a}, parser: {b}", loc=ci.loc(), witness={"field": f, "cal_info": a, "parser": b, "expected": d})
-    # two-digit years: both year fields are expanded to four digits when read (cal_info always yields four digits,
-    # and the future guard compares the two)
-    from sa import formats as _formats
-    from checks.c02 import part_tables as _pt
-    _pats, _fields, _fmts = _pt(ctx)
-    short_fields = sorted({_fields[p] for p in _fields if _formats.describe_formatter(_fmts[p]).last2})
-    ctx.floor("R3", "fields with two-digit renderings", len(short_fields), 2)
-    pcf = cfgs.get(pf.fq)
-    ppc = PathCond(pcf)
-    for fld in short_fields:
-        hits = [n for n in pcf.nodes if n.kind == "stmt" and isinstance(n.ast, ast.AugAssign) and unparse(n.ast.target) == fld and isinstance(n.ast.op, ast.Add)
-                and isinstance(n.ast.value, ast.Constant) and n.ast.value.value == 2000 and n.id in pcf.reachable()]
-        ok = False
-        if len(hits) == 1:
-            r = ppc.reach(hits[0].id).drop_unused()
-            lt = [a for a in r.atoms if a.replace(" ", "") in (f"{fld}<1000", f"{fld}<100")]
-            if len(lt) == 1:
-                want = BF.var(lt[0])
-                keep = [lt[0]]
-                if f"{fld} is None" in r.atoms:
-                    want = want & ~BF.var(f"{fld} is None")
-                    keep.append(f"{fld} is None")
-                ok = r.project(keep).equiv(want)
-        ctx.check("R3", ok, f"parser: two-digit '{fld}' is expanded by 2000 (as cal_info yields four-digit years)",
-                  f"v2version.parse_field_values_to_cinfo: two-digit '{fld}' is not expanded to a four-digit year (the future guard compares 22 with 2021)",
-                  f"{len(hits)} expansion statement(s) for {fld}", loc=pf.loc(), witness={"version": "v22.05.1001", "pattern": "vGG.0V.BUILD", "date": "2021-06-01"} if fld == "year_g" else None)
+    two_digit_year_rule(ctx, "R3")
     q = dict(zip([k.value for k in dicts[0].keys], dicts[0].values)).get("quarter")
     ctx.check("R3", q is not None and unparse(q) == f"version.quarter_from_month({ci.params[0]}.month)", "cal_info: quarter = quarter_from_month(date.month)", "v2version.cal_info: quarter source changed", "", loc=ci.loc())
 
